@@ -16,7 +16,22 @@
 (*        pattern p (items = UTF-8 bytes of each pattern character),       *)
 (*        text = FormatTime(instant), (rday, rms) = Parse(text), err =     *)
 (*        Parse returned an error, text2 = FormatTime(Parse(text)).        *)
-(* Every Obs / RT event carries n = its position in the history; the trace *)
+(*   Fmt  p day ms text                                                    *)
+(*        text = FormatTime(instant) alone: histories of gen fmtseq call   *)
+(*        one formatter (and a second one of the same pattern, and one of  *)
+(*        another pattern) many times in adversarial order; the spec says  *)
+(*        the text is a function of (pattern, instant) alone.              *)
+(*   Prs  p day ms text err rday rms                                       *)
+(*        Parse alone, of a text that an EARLIER FormatTime of the same    *)
+(*        pattern returned for the instant (day, ms); the text must be the *)
+(*        spec's text of that instant (the input is what it claims to be). *)
+(*   Now  day ymd du tsd                                                   *)
+(*        the clock-reading variants YmdNow, GetDateUnitNow and the date   *)
+(*        part of TimeStampNow while the library's clock (system clock +   *)
+(*        SetDelta) stood at noon of day `day`: judged to the day only.    *)
+(*        They are called between explicit instants because they share     *)
+(*        the helpers (and whatever those remember) with them.             *)
+(* Every Obs / RT / Fmt / Prs / Now event carries n = its position in the history; the trace *)
 (* spec counts (variable k), so a lost event is a rejected trace.          *)
 (* A panic is logged as event "Panic", for which there is no action.       *)
 (***************************************************************************)
@@ -65,9 +80,44 @@ TraceRT ==
              /\ (AllRequired(e.p, t) => e.text2 = e.text)     \* Format(p, Parse(p, Format(p, t))) = Format(p, t)
   /\ UNCHANGED vars
 
+\* one formatting call: the text is a function of the pattern and the instant alone
+FmtFields == {"p", "day", "ms", "text"}
+TraceFmt ==
+  /\ Step("Fmt") /\ Numbered
+  /\ LET e == Trace[l] IN
+       /\ \A f \in FmtFields : Has(e, f)
+       /\ LET t == [day |-> e.day, ms |-> e.ms]
+          IN IsInstant(t) /\ IsPattern(e.p) /\ e.text = Format(e.p, t)
+  /\ UNCHANGED vars
+
+\* one parsing call on a text formatted earlier (other calls in between)
+PrsFields == {"p", "day", "ms", "text", "err", "rday", "rms"}
+TracePrs ==
+  /\ Step("Prs") /\ Numbered
+  /\ LET e == Trace[l] IN
+       /\ \A f \in PrsFields : Has(e, f)
+       /\ LET t == [day |-> e.day, ms |-> e.ms]
+              r == [day |-> e.rday, ms |-> e.rms]
+          IN /\ IsInstant(t) /\ IsPattern(e.p)
+             /\ e.text = Format(e.p, t)
+             /\ e.err = FALSE
+             /\ RoundTripOK(e.p, t, r)
+  /\ UNCHANGED vars
+
+\* the clock-reading variants, to the day
+NowFields == {"day", "ymd", "du", "tsd"}
+TraceNow ==
+  /\ Step("Now") /\ Numbered
+  /\ LET e == Trace[l] IN
+       /\ \A f \in NowFields : Has(e, f)
+       /\ e.day \in Days
+       /\ LET h == Helpers([day |-> e.day, ms |-> 0])
+          IN e.ymd = h.ymd /\ e.tsd = h.ymd /\ e.du = h.du
+  /\ UNCHANGED vars
+
 InvAll == UnitsNested /\ TextsNameInstant
 
-TraceNext == (TraceReset \/ TraceObs \/ TraceRT) /\ InvAll'
+TraceNext == (TraceReset \/ TraceObs \/ TraceRT \/ TraceFmt \/ TracePrs \/ TraceNow) /\ InvAll'
 
 TraceSpec == TraceInit /\ [][TraceNext]_tvars
 
